@@ -10,7 +10,7 @@
 From Coq Require Import ZArith List Bool Strings.Byte.
 From YV Require Import Base.Wrap Val.Model Val.Proofs Tree.Schema Tree.Editor Tree.XPathLex Tree.When
   Tree.WhenSpec Tree.XPathLexProofs Tree.WhenProofs Tree.WhenEditProofs
-  Tree.Merge Tree.EditorProofs Tree.WhenWrite Tree.WhenWriteProofs.
+  Tree.Merge Tree.EditorProofs Tree.WhenWrite Tree.WhenWriteProofs Tree.WhenHideProofs.
 Import ListNotations.
 Open Scope Z_scope.
 
@@ -371,3 +371,78 @@ Proof.
   specialize (H Hw). vm_compute in H. discriminate H.
 Qed.
 Print Assumptions C16_wedit_untouched_full_statement_refuted.
+
+(** ** when_hides with choices (Tree/WhenHideProofs.v).  [wexport_m pth u] is the export from any container-like
+    entry point ([wexport true] = [wexport_m [] false]).
+    General form: a definition whose condition is false is exported exactly as if its data were absent,
+    whatever choices the schema has, PROVIDED hiding it leaves every case selection as it is. *)
+Theorem C16_when_hides_sel : forall pth u kids c i k,
+  nth_error kids i = Some k -> has_when k = true ->
+  same_selection kids c i ->
+  kid_when kids c i k = XOk false ->
+  wexport_m pth u kids c = wexport_m pth u kids (set_nth i None c).
+Proof. exact when_hides_sel. Qed.
+Print Assumptions C16_when_hides_sel.
+
+(** ... which is the case when the conditional definition is itself outside every choice (its siblings may sit
+    in choices: generalises C16_when_hides) *)
+Theorem C16_when_hides_unguarded : forall pth u kids c i k,
+  nth_error kids i = Some k -> has_when k = true -> sguard k = [] ->
+  kid_when kids c i k = XOk false ->
+  wexport_m pth u kids c = wexport_m pth u kids (set_nth i None c).
+Proof. exact when_hides_unguarded. Qed.
+Print Assumptions C16_when_hides_unguarded.
+
+(** ... and when every case the definition sits in holds other data *)
+Theorem C16_when_hides_in_case : forall pth u kids c i k,
+  nth_error kids i = Some k -> has_when k = true -> case_has_other kids c i k ->
+  kid_when kids c i k = XOk false ->
+  wexport_m pth u kids c = wexport_m pth u kids (set_nth i None c).
+Proof. exact when_hides_in_case. Qed.
+Print Assumptions C16_when_hides_in_case.
+
+(** FALSE without the proviso: a node hidden by its 'when' still counts as data of its case *)
+Definition C16_when_hides_choices_full_statement : Prop :=
+  forall pth u kids c i k,
+    nth_error kids i = Some k -> has_when k = true ->
+    kid_when kids c i k = XOk false ->
+    wexport_m pth u kids c = wexport_m pth u kids (set_nth i None c).
+(** counter-example: container p { choice ch { case A { leaf k { when "z=1" }  leaf d { default 5 } } }  leaf z },
+    p = {k=1, z=0}.  k is hidden, but its data still selects case A, so d's default is exported:
+    p = {d=5, z=0}; with k absent no case is selected: p = {z=0}. *)
+Definition h_k := SLeaf (mkMeta [x6b] [x6d] true [(0%nat, 0%nat)] (Some [x7a;x3d;x31])) (TInt FInt32) false None.
+Definition h_d := SLeaf (mkMeta [x64] [x6d] true [(0%nat, 0%nat)] None) (TInt FInt32) false (Some (LV (VInt FInt32 5))).
+Definition h_z := SLeaf (mkMeta [x7a] [x6d] true [] None) (TInt FInt32) false None.
+Definition h_p := SCont (mkMeta [x70] [x6d] true [] None) [h_k; h_d; h_z].
+Example C16_hidden_node_still_selects_its_case :
+  kid_when [h_k; h_d; h_z] [w_i32 1; None; w_i32 0] 0 h_k = XOk false /\
+  wexport true [h_p] [Some (DCont [w_i32 1; None; w_i32 0])] = XOk [Some (DCont [None; w_i32 5; w_i32 0])] /\
+  wexport true [h_p] [Some (DCont [None; None; w_i32 0])] = XOk [Some (DCont [None; None; w_i32 0])].
+Proof. vm_compute. repeat split. Qed.
+Theorem C16_when_hides_choices_full_statement_refuted : ~ C16_when_hides_choices_full_statement.
+Proof.
+  intros H.
+  specialize (H [] true [h_k; h_d; h_z] [w_i32 1; None; w_i32 0] 0%nat h_k eq_refl eq_refl).
+  assert (Hf : kid_when [h_k; h_d; h_z] [w_i32 1; None; w_i32 0] 0 h_k = XOk false) by (vm_compute; reflexivity).
+  specialize (H Hf). vm_compute in H. discriminate H.
+Qed.
+Print Assumptions C16_when_hides_choices_full_statement_refuted.
+
+(** the provisos are met: d has data too, so hiding k changes no selection (and the two exports agree) *)
+Example C16_case_has_other_met :
+  case_has_other [h_k; h_d; h_z] [w_i32 1; w_i32 7; w_i32 0] 0 h_k /\
+  kid_when [h_k; h_d; h_z] [w_i32 1; w_i32 7; w_i32 0] 0 h_k = XOk false /\
+  wexport_m [] true [h_k; h_d; h_z] [w_i32 1; w_i32 7; w_i32 0] = XOk [None; w_i32 7; w_i32 0].
+Proof.
+  split; [|vm_compute; split; reflexivity].
+  intros ch kc Hg. exists 1%nat, h_d.
+  destruct ch as [|ch]; [|discriminate Hg]. simpl in Hg. inversion Hg; subst kc.
+  repeat split. discriminate.
+Qed.
+(** an unguarded conditional leaf among siblings that sit in a choice *)
+Definition h_u := SLeaf (mkMeta [x75] [x6d] true [] (Some [x7a;x3d;x31])) (TInt FInt32) false None.
+Example C16_unguarded_met :
+  nth_error [h_u; h_d; h_z] 0 = Some h_u /\ has_when h_u = true /\ sguard h_u = [] /\
+  kid_when [h_u; h_d; h_z] [w_i32 1; w_i32 7; w_i32 0] 0 h_u = XOk false /\
+  wexport_m [] true [h_u; h_d; h_z] [w_i32 1; w_i32 7; w_i32 0] = XOk [None; w_i32 7; w_i32 0].
+Proof. vm_compute. repeat split. Qed.
